@@ -1,6 +1,7 @@
 /-
   C02 — Unix timestamps and UTC date-times correspond one-to-one.
-  Property statements only (helper lemmas: Proofs/TimestampL.lean, on top of Proofs/DateL.lean).
+  Property statements only (helper lemmas: Proofs/TimestampL.lean and Proofs/TimestampL2.lean, on top of
+  Proofs/DateL.lean).
 
   Model: `NaiveDT.{from_timestamp, from_timestamp_millis/_micros/_nanos, timestamp, timestamp_millis/_micros,
   timestamp_nanos_opt, timestamp_subsec_*}` (Model/DateTime.lean) and the wrappers / `SystemTime` conversions of
@@ -14,11 +15,11 @@
   `TS_MIN/TS_MAX` = first/last representable second; `/` and `%` on `Int` are floor division and its
   non-negative remainder.
 -/
-import Chrono.Proofs.TimestampL
+import Chrono.Proofs.TimestampL2
 import Chrono.Extracted.TsLits
 
 namespace Chrono.Props.C02
-open Chrono Chrono.M Chrono.Spec Chrono.Spec.Ts Chrono.Proofs Chrono.Proofs.Ts Chrono.Extracted
+open Chrono Chrono.M Chrono.Spec Chrono.Spec.Ts Chrono.Proofs Chrono.Proofs.Ts Chrono.Proofs.Ts2 Chrono.Extracted
 
 /-! ## data tie -/
 
@@ -396,6 +397,381 @@ example :
     Ts.from_system_time (-9223372036854775808) 0 = .panic ∧
     Ts.timestamp_opt 3600 0 0 = .ok (some ⟨⟨dateOfYo 1970 1, ⟨0, 0⟩⟩, 3600⟩) ∧
     Ts.timestamp 3600 0 2000000000 = .panic := by
+  decide +kernel
+
+/-! ## audit gaps (audit/C02.md), closed 2026-09-30 -/
+
+/-! ### the 64-bit nanosecond window on the whole quantifier domain -/
+
+/-- `timestamp_nanos_opt` on EVERY representable value (no assumption on where a leap-second
+representation sits; this is `nanos_opt_exact` without its `TStrict` hypothesis): the exact nanosecond
+count when that count fits in `i64`, absence otherwise, never a panic.  Holds since fix 32de816 (the
+count is formed in 128 bits); for the former body see `nanos_opt_pinned_formula`. -/
+theorem nanos_opt_exact_all (dt : NaiveDT) (h : NDTInv dt) :
+    NaiveDT.timestamp_nanos_opt dt = .ok (if isI64 (instNs dt) then some (instNs dt) else none) :=
+  nanos_opt_spec_all dt h
+
+/-- absence exactly when the count does not fit in 64 bits; presence exactly with the count -/
+theorem nanos_opt_none_iff_all (dt : NaiveDT) (h : NDTInv dt) :
+    (NaiveDT.timestamp_nanos_opt dt = .ok none ↔ ¬ isI64 (instNs dt)) ∧
+    (∀ n, NaiveDT.timestamp_nanos_opt dt = .ok (some n) ↔ (n = instNs dt ∧ isI64 n)) := by
+  rw [nanos_opt_spec_all dt h]
+  by_cases hi : isI64 (instNs dt)
+  · rw [if_pos hi]
+    refine ⟨⟨fun hx => (by injection hx with hx; cases hx), fun hx => absurd hi hx⟩, ?_⟩
+    intro n
+    constructor
+    · intro hx; injection hx with hx; injection hx with hx; subst hx; exact ⟨rfl, hi⟩
+    · rintro ⟨rfl, _⟩; rfl
+  · rw [if_neg hi]
+    refine ⟨⟨fun _ => hi, fun _ => rfl⟩, ?_⟩
+    intro n
+    constructor
+    · intro hx; injection hx with hx; cases hx
+    · rintro ⟨rfl, hn⟩; exact absurd hn hi
+
+/-- The FORMER body of `timestamp_nanos_opt` (before 32de816; `nanosOptPinned` in
+Proofs/TimestampL2.lean transcribes it: `if ts < 0 { sub -= 10⁹; ts += 1 }` then `checked_mul`,
+`checked_add` in `i64`) — statement about the OLD formula only, kept as the record of finding F27: it
+agrees with the present one on every representable value except those on the second -9223372038 with
+a nanosecond field ≥ 1145224192 (necessarily a leap-second representation off second 59), where it
+returned `None` although the count fits `i64`. -/
+theorem nanos_opt_pinned_formula (dt : NaiveDT) (h : NDTInv dt) :
+    (¬ (instSecs dt = -9223372038 ∧ dt.time.frac ≥ 1145224192) →
+      nanosOptPinned dt = NaiveDT.timestamp_nanos_opt dt) ∧
+    ((instSecs dt = -9223372038 ∧ dt.time.frac ≥ 1145224192) →
+      nanosOptPinned dt = .ok none ∧ NaiveDT.timestamp_nanos_opt dt = .ok (some (instNs dt)) ∧
+      ¬ TStrict dt.time) := by
+  constructor
+  · intro hx
+    rw [nanosOptPinned_spec dt h hx, nanos_opt_spec_all dt h]
+  · intro hx
+    obtain ⟨e1, e2⟩ := nanosOptPinned_exceptional dt h hx
+    refine ⟨e1, by rw [nanos_opt_spec_all dt h, if_pos e2], ?_⟩
+    intro hs
+    have h60 : instSecs dt % 60 = dt.time.secs % 60 := by unfold instSecs; omega
+    obtain ⟨_, hl⟩ := hs
+    omega
+
+/-- F27's input under the OLD formula (kernel-evaluated): `None`; compare
+`nanos_opt_nonstrict_leap_witness` for the present code -/
+theorem nanos_opt_pinned_formula_witness :
+    nanosOptPinned ⟨⟨13742219⟩, ⟨762, 1500000000⟩⟩ = .ok none ∧
+    NaiveDT.timestamp_nanos_opt ⟨⟨13742219⟩, ⟨762, 1500000000⟩⟩ = .ok (some (-9223372036500000000)) ∧
+    nanosOptPinned ⟨⟨13742219⟩, ⟨762, 1145224192⟩⟩ = .ok none ∧
+    nanosOptPinned ⟨⟨13742219⟩, ⟨762, 1145224191⟩⟩ = .ok none ∧
+    NaiveDT.timestamp_nanos_opt ⟨⟨13742219⟩, ⟨762, 1145224192⟩⟩ = .ok (some (-9223372036854775808)) ∧
+    NaiveDT.timestamp_nanos_opt ⟨⟨13742219⟩, ⟨762, 1145224191⟩⟩ = .ok none := by
+  decide +kernel
+
+/-! ### the reverse round trip has an exact boundary -/
+
+/-- value → count → value holds EXACTLY for the values whose leap-second representation, if any, sits
+on a second 59 (what every timestamp constructor builds); a value with a leap-second representation on
+another second (only `with_nanosecond`/`with_second`/offset shifts build one) is refused by
+`from_timestamp` on its own `(timestamp(), timestamp_subsec_nanos())`.  So the `TStrict` hypothesis of
+`ts_roundtrip_to` is necessary, not a convenience. -/
+theorem ts_roundtrip_to_iff (dt : NaiveDT) (h : NDTInv dt) :
+    NaiveDT.timestamp dt = .ok (instSecs dt) ∧
+    (NaiveDT.from_timestamp (instSecs dt) (NaiveDT.timestamp_subsec_nanos dt) = .ok (some dt) ↔
+      TStrict dt.time) ∧
+    (¬ TStrict dt.time →
+      NaiveDT.from_timestamp (instSecs dt) (NaiveDT.timestamp_subsec_nanos dt) = .ok none) :=
+  ⟨timestamp_spec dt h, from_timestamp_back_iff dt h, from_timestamp_of_nonstrict dt h⟩
+
+/-- the nanosecond unit: value → count → value holds exactly for the non-leap values (a leap-second
+value's count names the instant inside the following second, which `from_timestamp_nanos` builds as a
+non-leap value); so the `NonLeap` hypothesis of `ts_roundtrip_units_to` is necessary -/
+theorem ts_roundtrip_nanos_to_iff (dt : NaiveDT) (h : NDTInv dt) (n : Int)
+    (hn : NaiveDT.timestamp_nanos_opt dt = .ok (some n)) :
+    n = instNs dt ∧ (NaiveDT.from_timestamp_nanos n = .ok dt ↔ NonLeap dt) ∧
+    (∃ dt', NaiveDT.from_timestamp_nanos n = .ok dt' ∧ NonLeap dt' ∧ instNs dt' = instNs dt) := by
+  obtain ⟨e, hi⟩ := ((nanos_opt_none_iff_all dt h).2 n).1 hn
+  subst e
+  obtain ⟨dt', e1, _, e2, e3⟩ := from_nanos_total (instNs dt) hi
+  exact ⟨rfl, nanos_back_iff dt h hi, dt', e1, e2, e3⟩
+
+/-- milliseconds / microseconds: the count read in the unit rebuilds the value truncated to the unit
+EXACTLY for the non-leap values (for a leap-second value the constructor yields a non-leap value inside
+the following second instead) -/
+theorem ts_roundtrip_units_to_iff (dt : NaiveDT) (h : NDTInv dt) :
+    NaiveDT.timestamp_millis dt = .ok (instNs dt / 1000000) ∧
+    NaiveDT.timestamp_micros dt = .ok (instNs dt / 1000) ∧
+    (NaiveDT.from_timestamp_millis (instNs dt / 1000000) = .ok (some (truncFrac dt 1000000)) ↔ NonLeap dt) ∧
+    (NaiveDT.from_timestamp_micros (instNs dt / 1000) = .ok (some (truncFrac dt 1000)) ↔ NonLeap dt) := by
+  have hr := instSecs_range dt h
+  rw [ts_min_val, ts_max_val] at hr
+  obtain ⟨_, _, _, t3, t4⟩ := id h
+  refine ⟨timestamp_millis_spec dt h, timestamp_micros_spec dt h, ⟨?_, millis_back dt h⟩, ⟨?_, micros_back dt h⟩⟩
+  · intro hx
+    obtain ⟨r, e1, _, e3⟩ := from_millis_floor (instNs dt / 1000000) (by unfold isI64 instNs; omega)
+    rw [e1] at hx; injection hx with hx
+    obtain ⟨_, i2, _⟩ := e3 _ hx
+    unfold NonLeap truncFrac at i2; dsimp only at i2
+    unfold NonLeap; omega
+  · intro hx
+    obtain ⟨r, e1, _, e3⟩ := from_micros_floor (instNs dt / 1000) (by unfold isI64 instNs; omega)
+    rw [e1] at hx; injection hx with hx
+    obtain ⟨_, i2, _⟩ := e3 _ hx
+    unfold NonLeap truncFrac at i2; dsimp only at i2
+    unfold NonLeap; omega
+
+/-! ### calendar and clock fields through C01's specification -/
+
+/-- bridge to C01: a packed date satisfies the representation invariant exactly when it is
+`dateOfYo y o` for a year of the range and an existing ordinal, and then `y`, `o` are its own year and
+ordinal — so C01's `accessors_ok` (stated for `dateOfYo y o`) applies to every date C02 speaks about -/
+theorem date_repr (d : Date) :
+    (DateInv d ↔ ∃ (y : Int) (o : Nat), d = dateOfYo y o ∧ MIN_YEAR ≤ y ∧ y ≤ MAX_YEAR ∧ 1 ≤ o ∧ o ≤ yearLen y) ∧
+    (DateInv d → d = dateOfYo d.year d.ordinal.toNat ∧ (d.ordinal.toNat : Int) = d.ordinal ∧
+      MIN_YEAR ≤ d.year ∧ d.year ≤ MAX_YEAR ∧ 1 ≤ d.ordinal.toNat ∧ d.ordinal.toNat ≤ yearLen d.year) :=
+  ⟨dateInv_iff d, dateInv_repr' d⟩
+
+/-- the calendar and clock fields of every representable value: `month()`/`day()` never panic and
+are a valid calendar date (C01's `validYmd`, namely C01's `monthOfYo/dayOfYo` of the ordinal) whose
+closed-form day number `dayNum`, together with `hour():minute():second()`, is exactly `instSecs` -/
+theorem fields_meaning (dt : NaiveDT) (h : NDTInv dt) :
+    ∃ m d : Nat, dt.date.month = .ok m ∧ dt.date.day = .ok d ∧ validYmd dt.date.year m d = true ∧
+      m = monthOfYo dt.date.year dt.date.ordinal.toNat ∧ d = dayOfYo dt.date.year dt.date.ordinal.toNat ∧
+      instSecs dt = (dayNum dt.date.year m d - 719163) * 86400
+        + dt.time.hour * 3600 + dt.time.minute * 60 + dt.time.second ∧
+      0 ≤ dt.time.hour ∧ dt.time.hour < 24 ∧ 0 ≤ dt.time.minute ∧ dt.time.minute < 60 ∧
+      0 ≤ dt.time.second ∧ dt.time.second < 60 ∧ dt.time.nanosecond = dt.time.frac := by
+  obtain ⟨m, d, c1, c2, c3, c4, c5, c6⟩ := date_calendar dt.date h.1
+  obtain ⟨k1, k2⟩ := time_clock dt.time h.2
+  refine ⟨m, d, c1, c2, c3, c4, c5, ?_, k2⟩
+  have hE' : EPOCH_DAY = 719163 := rfl
+  unfold instSecs
+  rw [c6, hE']
+  omega
+
+/-- clause 1 of the statement with calendar fields: the value `from_timestamp` builds has the
+calendar date (year, month, day — valid by C01's specification) whose day number is the floor day
+`secs / 86400` after 1970-01-01 (day 719163), the clock fields of the second of day `secs % 86400`,
+and the given nanosecond field -/
+theorem from_ts_fields (secs nsecs : Int) (hs : isI64 secs) (hn : isU32 nsecs) (dt : NaiveDT)
+    (h : NaiveDT.from_timestamp secs nsecs = .ok (some dt)) :
+    ∃ m d : Nat, dt.date.month = .ok m ∧ dt.date.day = .ok d ∧ validYmd dt.date.year m d = true ∧
+      dayNum dt.date.year m d = 719163 + secs / 86400 ∧
+      dt.time.hour = secs % 86400 / 3600 ∧ dt.time.minute = secs % 3600 / 60 ∧
+      dt.time.second = secs % 60 ∧ dt.time.nanosecond = nsecs := by
+  obtain ⟨r, h1, _, h3⟩ := from_timestamp_spec secs nsecs hs hn.1
+  rw [h1] at h
+  injection h with h
+  obtain ⟨i1, _, i3, i4⟩ := h3 dt h
+  obtain ⟨m, d, c1, c2, c3, _, _, c6, k1, k2, k3, k4, k5, k6, k7⟩ := fields_meaning dt i1
+  refine ⟨m, d, c1, c2, c3, ?_, ?_, ?_, ?_, by rw [k7, i4]⟩
+  · omega
+  · omega
+  · omega
+  · omega
+
+/-! ### zone-aware values: the offset does not enter -/
+
+/-- every timestamp accessor of a zone-aware value (`DateTime<FixedOffset>`, `DateTime<Local>`,
+`DateTime<Utc>`: UTC reading + offset) is the specification's count of the instant `zonedInstNs`
+(the UTC reading alone), for every offset; the deprecated `NaiveDateTime::timestamp*` accessors
+(`self.and_utc().…`) likewise -/
+theorem zoned_timestamp_meaning (z : Zoned) (h : NDTInv z.utc) :
+    Ts.ztimestamp z = .ok (zonedInstNs z / 1000000000 - (if z.utc.time.frac ≥ 1000000000 then 1 else 0)) ∧
+    Ts.ztimestamp z = .ok (instSecs z.utc) ∧
+    Ts.ztimestamp_millis z = .ok (zonedInstNs z / 1000000) ∧
+    Ts.ztimestamp_micros z = .ok (zonedInstNs z / 1000) ∧
+    Ts.ztimestamp_nanos_opt z = .ok (if isI64 (zonedInstNs z) then some (zonedInstNs z) else none) ∧
+    Ts.ztimestamp_subsec_nanos z = z.utc.time.frac ∧
+    Ts.ztimestamp_subsec_micros z = z.utc.time.frac / 1000 ∧
+    Ts.ztimestamp_subsec_millis z = z.utc.time.frac / 1000000 ∧
+    (∀ off', Ts.ztimestamp ⟨z.utc, off'⟩ = Ts.ztimestamp z ∧
+      Ts.ztimestamp_millis ⟨z.utc, off'⟩ = Ts.ztimestamp_millis z ∧
+      Ts.ztimestamp_micros ⟨z.utc, off'⟩ = Ts.ztimestamp_micros z ∧
+      Ts.ztimestamp_nanos_opt ⟨z.utc, off'⟩ = Ts.ztimestamp_nanos_opt z) ∧
+    Ts.naive_timestamp z.utc = Ts.ztimestamp z ∧ Ts.naive_timestamp_millis z.utc = Ts.ztimestamp_millis z ∧
+    Ts.naive_timestamp_micros z.utc = Ts.ztimestamp_micros z ∧
+    Ts.naive_timestamp_nanos_opt z.utc = Ts.ztimestamp_nanos_opt z ∧
+    Ts.naive_timestamp_subsec_nanos z.utc = Ts.ztimestamp_subsec_nanos z := by
+  obtain ⟨_, _, _, t3, t4⟩ := id h
+  refine ⟨?_, timestamp_spec z.utc h, timestamp_millis_spec z.utc h, timestamp_micros_spec z.utc h,
+    nanos_opt_spec_all z.utc h, rfl, rfl, rfl, fun _ => ⟨rfl, rfl, rfl, rfl⟩, rfl, rfl, rfl, rfl, rfl⟩
+  unfold Ts.ztimestamp zonedInstNs instNs
+  rw [timestamp_spec z.utc h]
+  congr 1
+  split <;> omega
+
+/-- `TimeZone::timestamp_opt` / `timestamp_millis_opt` / `timestamp_micros` / `timestamp_nanos` for a
+fixed offset (`MappedLocalTime::Single` or `None`, never `Ambiguous`, never a panic), against the
+specification: `None` exactly when the instant is not representable / the nanosecond field invalid;
+otherwise the single value carries the zone's offset and its UTC reading is the value at that instant -/
+theorem tz_timestamp_meaning (off : Int) :
+    (∀ s n, isI64 s → isU32 n → ∃ r, Ts.timestamp_opt off s n = .ok r ∧ (r = none ↔ ¬ tsOk s n) ∧
+      ∀ z, r = some z → z.off = off ∧ IsAt z.utc s n) ∧
+    (∀ ms, isI64 ms → ∃ r, Ts.timestamp_millis_opt off ms = .ok r ∧
+      (r = none ↔ (ms / 1000 < TS_MIN ∨ ms / 1000 > TS_MAX)) ∧
+      ∀ z, r = some z → z.off = off ∧ NDTInv z.utc ∧ NonLeap z.utc ∧ zonedInstNs z = ms * 1000000) ∧
+    (∀ us, isI64 us → ∃ r, Ts.timestamp_micros off us = .ok r ∧
+      (r = none ↔ (us / 1000000 < TS_MIN ∨ us / 1000000 > TS_MAX)) ∧
+      ∀ z, r = some z → z.off = off ∧ NDTInv z.utc ∧ NonLeap z.utc ∧ zonedInstNs z = us * 1000) ∧
+    (∀ ns, isI64 ns → ∃ z, Ts.timestamp_nanos off ns = .ok z ∧ z.off = off ∧ NDTInv z.utc ∧ NonLeap z.utc ∧
+      zonedInstNs z = ns) := by
+  refine ⟨?_, ?_, ?_, ?_⟩
+  · intro s n hs hn
+    obtain ⟨r, e1, e2, e3⟩ := from_timestamp_spec s n hs hn.1
+    refine ⟨r.map fun dt => ⟨dt, off⟩, by unfold Ts.timestamp_opt; rw [e1, single_ok], ?_, ?_⟩
+    · rw [← e2]; cases r <;> simp
+    · intro z hz
+      cases r with
+      | none => cases hz
+      | some dt => injection hz with hz; subst hz; exact ⟨rfl, e3 dt rfl⟩
+  · intro ms hms
+    obtain ⟨r, e1, e2, e3⟩ := from_millis_floor ms hms
+    refine ⟨r.map fun dt => ⟨dt, off⟩, by unfold Ts.timestamp_millis_opt; rw [e1, single_ok], ?_, ?_⟩
+    · rw [← e2]; cases r <;> simp
+    · intro z hz
+      cases r with
+      | none => cases hz
+      | some dt => injection hz with hz; subst hz; exact ⟨rfl, e3 dt rfl⟩
+  · intro us hus
+    obtain ⟨r, e1, e2, e3⟩ := from_micros_floor us hus
+    refine ⟨r.map fun dt => ⟨dt, off⟩, by unfold Ts.timestamp_micros; rw [e1, single_ok], ?_, ?_⟩
+    · rw [← e2]; cases r <;> simp
+    · intro z hz
+      cases r with
+      | none => cases hz
+      | some dt => injection hz with hz; subst hz; exact ⟨rfl, e3 dt rfl⟩
+  · intro ns hns
+    obtain ⟨dt, e1, e2, e3, e4⟩ := from_nanos_total ns hns
+    exact ⟨⟨dt, off⟩, by unfold Ts.timestamp_nanos; rw [e1]; rfl, rfl, e2, e3, e4⟩
+
+/-! ### the `unwrap` / `expect` forms panic exactly when the `_opt` form is `None` -/
+
+/-- `TimeZone::timestamp` (deprecated, `timestamp_opt(..).unwrap()`), every `i64` × `u32`: panics
+exactly when `timestamp_opt` is `None`, i.e. exactly when the instant is not representable or the
+nanosecond field is invalid; otherwise returns the very value `timestamp_opt` holds -/
+theorem tz_timestamp_unwrap (off s n : Int) (hs : isI64 s) (hn : isU32 n) :
+    (Ts.timestamp off s n = .panic ↔ Ts.timestamp_opt off s n = .ok none) ∧
+    (Ts.timestamp off s n = .panic ↔ ¬ tsOk s n) ∧
+    (∀ z, Ts.timestamp off s n = .ok z ↔ Ts.timestamp_opt off s n = .ok (some z)) := by
+  obtain ⟨r, e1, e2, _⟩ := (tz_timestamp_meaning off).1 s n hs hn
+  obtain ⟨u1, u2⟩ := unwrap_ok r
+  unfold Ts.timestamp
+  rw [e1]
+  refine ⟨?_, by rw [u1, e2], ?_⟩
+  · rw [u1]; constructor
+    · intro hx; rw [hx]
+    · intro hx; injection hx
+  · intro z; rw [u2 z]; constructor
+    · intro hx; rw [hx]
+    · intro hx; injection hx
+
+/-- `TimeZone::timestamp_millis` (deprecated, `.unwrap()`), every `i64` -/
+theorem tz_timestamp_millis_unwrap (off ms : Int) (h : isI64 ms) :
+    (Ts.timestamp_millis off ms = .panic ↔ Ts.timestamp_millis_opt off ms = .ok none) ∧
+    (Ts.timestamp_millis off ms = .panic ↔ (ms / 1000 < TS_MIN ∨ ms / 1000 > TS_MAX)) ∧
+    (∀ z, Ts.timestamp_millis off ms = .ok z ↔ Ts.timestamp_millis_opt off ms = .ok (some z)) := by
+  obtain ⟨r, e1, e2, _⟩ := (tz_timestamp_meaning off).2.1 ms h
+  obtain ⟨u1, u2⟩ := unwrap_ok r
+  unfold Ts.timestamp_millis
+  rw [e1]
+  refine ⟨?_, by rw [u1, e2], ?_⟩
+  · rw [u1]; constructor
+    · intro hx; rw [hx]
+    · intro hx; injection hx
+  · intro z; rw [u2 z]; constructor
+    · intro hx; rw [hx]
+    · intro hx; injection hx
+
+/-- `DateTime::timestamp_nanos` (deprecated, `expect(timestamp_nanos_opt())`), every representable
+value read through any offset: panics exactly when `timestamp_nanos_opt` is `None`, i.e. exactly when
+the count does not fit 64 bits; otherwise returns the count -/
+theorem timestamp_nanos_expect_iff (dt : NaiveDT) (h : NDTInv dt) :
+    (Ts.timestamp_nanos_expect dt = .panic ↔ NaiveDT.timestamp_nanos_opt dt = .ok none) ∧
+    (Ts.timestamp_nanos_expect dt = .panic ↔ ¬ isI64 (instNs dt)) ∧
+    (isI64 (instNs dt) → Ts.timestamp_nanos_expect dt = .ok (instNs dt)) ∧
+    (∀ off, Ts.ztimestamp_nanos_expect ⟨dt, off⟩ = Ts.timestamp_nanos_expect dt) ∧
+    Ts.naive_timestamp_nanos dt = Ts.timestamp_nanos_expect dt := by
+  have e := nanos_opt_spec_all dt h
+  refine ⟨?_, ?_, ?_, fun _ => rfl, rfl⟩ <;> unfold Ts.timestamp_nanos_expect <;> rw [e]
+  · by_cases hi : isI64 (instNs dt)
+    · rw [if_pos hi]
+      constructor
+      · intro hx; cases hx
+      · intro hx; injection hx with hx; cases hx
+    · rw [if_neg hi]
+      exact ⟨fun _ => rfl, fun _ => rfl⟩
+  · by_cases hi : isI64 (instNs dt)
+    · rw [if_pos hi]
+      constructor
+      · intro hx; cases hx
+      · intro hx; exact absurd hi hx
+    · rw [if_neg hi]
+      exact ⟨fun _ => hi, fun _ => rfl⟩
+  · intro hi
+    rw [if_pos hi]; rfl
+
+/-- the deprecated `NaiveDateTime::from_timestamp` (`expect`), every `i64` × `u32`: panics exactly
+when `from_timestamp_opt` / `DateTime::from_timestamp` is `None`; otherwise returns that value; and the
+`Option`-returning deprecated constructors are the `DateTime` ones -/
+theorem naive_from_timestamp_unwrap (s n : Int) (hs : isI64 s) (hn : isU32 n) :
+    (Ts.naive_from_timestamp s n = .panic ↔ Ts.naive_from_timestamp_opt s n = .ok none) ∧
+    (Ts.naive_from_timestamp s n = .panic ↔ NaiveDT.from_timestamp s n = .ok none) ∧
+    (Ts.naive_from_timestamp s n = .panic ↔ ¬ tsOk s n) ∧
+    (∀ dt, Ts.naive_from_timestamp s n = .ok dt ↔ NaiveDT.from_timestamp s n = .ok (some dt)) := by
+  obtain ⟨r, e1, e2, _⟩ := from_timestamp_spec s n hs hn.1
+  have e0 : Ts.naive_from_timestamp_opt s n = NaiveDT.from_timestamp s n := (wrappers_ok 0).2.2.2.2.2.2.1 s n
+  obtain ⟨u1, u2⟩ := unwrap_ok r
+  unfold Ts.naive_from_timestamp
+  rw [e0, e1]
+  have a : (Res.ok r = Res.ok (none : Option NaiveDT)) ↔ r = none :=
+    ⟨fun hx => by injection hx, fun hx => by rw [hx]⟩
+  refine ⟨by rw [u1, a], by rw [u1, a], by rw [u1, e2], ?_⟩
+  intro dt; rw [u2 dt]
+  exact ⟨fun hx => by rw [hx], fun hx => by injection hx⟩
+
+/-- `TimeZone::timestamp_nanos` and `DateTime::from_timestamp_nanos` contain an `expect` that never
+fires on `i64`; `From<SystemTime>`'s `unwrap` fires exactly outside the range (`from_system_time_exact`) -/
+theorem nanos_expect_never_fires (off ns : Int) (h : isI64 ns) :
+    NaiveDT.from_timestamp_nanos ns ≠ .panic ∧ Ts.timestamp_nanos off ns ≠ .panic := by
+  obtain ⟨dt, e1, _⟩ := from_nanos_total ns h
+  obtain ⟨z, e2, _⟩ := (tz_timestamp_meaning off).2.2.2 ns h
+  rw [e1, e2]
+  exact ⟨fun hx => (by cases hx), fun hx => (by cases hx)⟩
+
+/-! ### non-vacuity of the 2026-09-30 families -/
+
+/-- a leap-second representation on second :42 (not strict): the nanosecond count exists, the
+reverse round trip is refused; the same field on :59 is rebuilt; and the nanosecond unit maps a
+leap-second value to the following second -/
+example :
+    NDTInv ⟨dateOfYo 2015 181, ⟨86382, 1500000000⟩⟩ ∧ ¬ TStrict (⟨86382, 1500000000⟩ : Time) ∧
+    NaiveDT.timestamp_nanos_opt ⟨dateOfYo 2015 181, ⟨86382, 1500000000⟩⟩ = .ok (some 1435708783500000000) ∧
+    NaiveDT.from_timestamp 1435708782 1500000000 = .ok none ∧
+    NaiveDT.timestamp ⟨dateOfYo 2015 181, ⟨86382, 1500000000⟩⟩ = .ok 1435708782 ∧
+    NaiveDT.from_timestamp_nanos 1435708800500000000 = .ok ⟨dateOfYo 2015 182, ⟨0, 500000000⟩⟩ ∧
+    NaiveDT.timestamp_nanos_opt ⟨dateOfYo 2015 181, ⟨86399, 1500000000⟩⟩ = .ok (some 1435708800500000000) ∧
+    ¬ isI64 (instNs NaiveDT.MAX) ∧ isI64 (instNs ⟨⟨13742219⟩, ⟨762, 1145224192⟩⟩) := by
+  decide +kernel
+
+/-- calendar fields: 2015-06-30T23:59:59 (leap second) and 1969-12-31T23:59:59 -/
+example :
+    (dateOfYo 2015 181).month = .ok 6 ∧ (dateOfYo 2015 181).day = .ok 30 ∧ validYmd 2015 6 30 = true ∧
+    dayNum 2015 6 30 = 719163 + 1435708799 / 86400 ∧
+    Time.hour ⟨86399, 1500000000⟩ = 23 ∧ Time.minute ⟨86399, 1500000000⟩ = 59 ∧
+    Time.second ⟨86399, 1500000000⟩ = 59 ∧
+    dayNum 1969 12 31 = 719163 + (-1) / 86400 ∧ DateInv (dateOfYo 1969 365) ∧
+    (dateOfYo 1969 365).year = 1969 ∧ (dateOfYo 1969 365).ordinal = 365 := by
+  decide +kernel
+
+/-- unwrap forms: both outcomes; a non-zero offset is attached and does not enter the count -/
+example :
+    Ts.timestamp 3600 (-1) 999999999 = .ok ⟨⟨dateOfYo 1969 365, ⟨86399, 999999999⟩⟩, 3600⟩ ∧
+    Ts.timestamp 3600 (TS_MAX + 1) 0 = .panic ∧ Ts.timestamp_opt 3600 (TS_MAX + 1) 0 = .ok none ∧
+    Ts.timestamp_millis (-3600) (-1) = .ok ⟨⟨dateOfYo 1969 365, ⟨86399, 999000000⟩⟩, -3600⟩ ∧
+    Ts.timestamp_millis 0 9223372036854775807 = .panic ∧
+    Ts.timestamp_nanos_expect NaiveDT.MAX = .panic ∧
+    Ts.timestamp_nanos_expect ⟨dateOfYo 1969 365, ⟨86399, 999999999⟩⟩ = .ok (-1) ∧
+    Ts.naive_from_timestamp 0 2000000000 = .panic ∧
+    Ts.naive_from_timestamp 59 1999999999 = .ok ⟨dateOfYo 1970 1, ⟨59, 1999999999⟩⟩ ∧
+    Ts.ztimestamp ⟨⟨dateOfYo 1969 365, ⟨86399, 999999999⟩⟩, 86399⟩ = .ok (-1) ∧
+    Ts.ztimestamp_subsec_millis ⟨⟨dateOfYo 2015 181, ⟨86399, 1500000000⟩⟩, -86399⟩ = 1500 := by
   decide +kernel
 
 end Chrono.Props.C02
